@@ -93,6 +93,11 @@ def walk_avps(cx, avps, replay, depth, budget):
             first_raised = False
         except cx.AvpDecodeError:
             first_raised = True
+        except cx.contracts.StepBudgetExhausted as e:
+            cx.witness(f"steps.decode_does_not_terminate.value:{type(a).__name__}",
+                       {"code": a.code, "vendor": a.vendor_id, "payload": bytes(a.payload)[:40].hex(), "steps": str(e)},
+                       replay)
+            return mx
         except BaseException:
             first_raised = None      # judged below, at the second read
         try:
@@ -153,8 +158,10 @@ def feed(cx, data: bytes, cls: str, sample=False):
     cx.cov["classes"][cls] = cx.cov["classes"].get(cls, 0) + 1
     cx.cov["max_len"] = max(cx.cov["max_len"], len(data))
     replay = {"op": "bytes", "hex": data.hex()} if len(data) <= 70000 else None
+    # a decode that would never return is cut off by the step budget (far above the linear bound judged below)
+    budget = 60 * (len(data) + 64)
     for plain in (False, True):
-        Steps.reset()
+        Steps.reset(budget)
         m = None
         try:
             m = Message.from_bytes(data, plain_msg=plain)
@@ -162,6 +169,9 @@ def feed(cx, data: bytes, cls: str, sample=False):
         except cx.allowed as e:
             n = type(e).__name__
             cx.cov["decode_errors"][n] = cx.cov["decode_errors"].get(n, 0) + 1
+        except cx.contracts.StepBudgetExhausted as e:
+            cx.witness("steps.decode_does_not_terminate.from_bytes",
+                       {"plain": plain, "steps": str(e), "len": len(data), "head": data[:40].hex()}, replay)
         except BaseException as e:
             cx.witness(f"from_bytes.raises.{type(e).__name__}",
                        {"plain": plain, "exc": repr(e)[:200], "len": len(data), "head": data[:40].hex()}, replay)
@@ -202,10 +212,13 @@ def feed(cx, data: bytes, cls: str, sample=False):
     for sl in (data[20:], data):
         if not sl:
             continue
-        Steps.reset()
+        Steps.reset(budget)
         try:
             a = Avp.from_bytes(sl)
         except cx.allowed:
+            continue
+        except cx.contracts.StepBudgetExhausted as e:
+            cx.witness("steps.decode_does_not_terminate.avp_from_bytes", {"steps": str(e), "head": sl[:40].hex()}, replay)
             continue
         except BaseException as e:
             cx.witness(f"avp.from_bytes.raises.{type(e).__name__}", {"exc": repr(e)[:200], "head": sl[:40].hex()}, replay)
